@@ -1076,6 +1076,50 @@ fn droppable(chain: &[Plug], m: &DltMessage) -> bool {
     })
 }
 
+/// which stateful paths a run reached (read off the texts the real plugins produced), for the distribution statistics
+fn scenario_tags(ins: &[DltMessage], mtags: &[&'static str], outs: &[DltMessage], tags: &mut Vec<String>) {
+    let mut set = BTreeSet::new();
+    for (m, t) in ins.iter().zip(mtags.iter()) {
+        let text = match outs.iter().find(|o| o.index == m.index).and_then(|o| o.payload_text.clone()) {
+            Some(x) if Some(&x) != m.payload_text.as_ref() => x,
+            _ => continue,
+        };
+        match *t {
+            "seg_nwst" if text.starts_with("SOME/IP segmented message NWST id:") => {
+                set.insert("path_seg_started");
+            }
+            "seg_nwch" if text.starts_with("SOME/IP segmented message NWCH") => {
+                set.insert(if text.contains("out-of-sequence") {
+                    "path_seg_chunk_rejected"
+                } else if text.contains("unknown id") {
+                    "path_seg_chunk_unknown_id"
+                } else {
+                    "path_seg_chunk_accepted"
+                });
+            }
+            "seg_nwen" => {
+                set.insert(if text.contains("err=None") {
+                    "path_seg_end_unknown_id"
+                } else if text.contains("too little data") {
+                    "path_seg_end_incomplete"
+                } else {
+                    "path_seg_end_reassembled"
+                });
+            }
+            "muniic_msg" if text.contains("InitialDataApp1") => {
+                set.insert("path_muniic_decoded");
+            }
+            "can_frame" => {
+                set.insert("path_can_frame_text");
+            }
+            _ => {}
+        }
+    }
+    for t in set {
+        tags.push(t.to_string());
+    }
+}
+
 fn record_frame(sink: &mut Sink, chain: Vec<Plug>, msgs: Vec<DltMessage>, mtags: Vec<&'static str>) {
     let allow_ts = chain.contains(&Plug::Rewrite);
     let ins: Vec<(DltMessage, bool)> = msgs.iter().map(|m| (m.clone(), droppable(&chain, m))).collect();
@@ -1103,6 +1147,10 @@ fn record_frame(sink: &mut Sink, chain: Vec<Plug>, msgs: Vec<DltMessage>, mtags:
         Ok(Err(e)) => (O::T(vec![O::L(2)]), fail("chain_runs", e.clone())),
         Ok(Ok(outs)) => {
             let v = frame_oracle(allow_ts, &ins, outs);
+            if mtags.len() == ins.len() {
+                let plain: Vec<DltMessage> = ins.iter().map(|x| x.0.clone()).collect();
+                scenario_tags(&plain, &mtags, outs, &mut tags);
+            }
             let ntext = ins.iter().zip(outs.iter()).filter(|(a, b)| a.0.index == b.index && a.0.payload_text != b.payload_text).count();
             if ntext > 0 {
                 tags.push("decoded_text_set".into());
@@ -1294,6 +1342,9 @@ fn record_dec(sink: &mut Sink, chain: Vec<Plug>, msgs: Vec<DltMessage>, mtags: V
         Ok(Err(e)) => (O::T(vec![O::L(2)]), fail("chain_runs", e.clone())),
         Ok(Ok(outs)) => {
             let flagged: Vec<(DltMessage, bool)> = ins.iter().map(|m| (m.clone(), false)).collect();
+            if mtags.len() == ins.len() {
+                scenario_tags(&ins, &mtags, outs, &mut tags);
+            }
             (O::T(vec![O::L(0), O::T(outs.iter().map(msg_obs).collect())]), frame_oracle(allow_ts, &flagged, outs))
         }
     };
@@ -1509,6 +1560,337 @@ fn record_equiv(sink: &mut Sink, msgs: Vec<DltMessage>) {
     });
 }
 
+// ------------------------------------------------------------------------------------------------ multi-message scenarios
+// The plugins' STATEFUL paths: what a plugin does with a message depends on earlier messages (SOME/IP segment
+// reassembly, CAN channel announcements, Muniic configuration messages and lookup cache, file transfers).  Each
+// session is a mostly valid, ordered message sequence of one ECU; a stream interleaves sessions and sprinkles
+// unrelated traffic.  Index, reception time, timestamp and mcnt are assigned afterwards, all pairwise different,
+// so that a field copied from an earlier message of the session shows up in the field-by-field comparison.
+type Proto = (DltMessage, &'static str);
+
+fn proto(ecu: u32, big: bool, ext: (u8, u8, u32, u32), payload: Vec<u8>, tag: &'static str) -> Proto {
+    (mk(0, 0, ecu, 0, 0x31 | if big { 2 } else { 0 }, Some(ext), payload), tag)
+}
+
+/// SOME/IP segmented transfer(s): NWST (id, header, nr chunks, chunk size), NWCH chunks, NWEN — and its variants
+fn someip_session(rng: &mut Rng, ecu: u32) -> Vec<Proto> {
+    let big = rng.chance(1, 5);
+    // selected by the plugin: NwTrace with an "Ipc" mtin (1, or any outside 2..6), ctid TC; sometimes not selected
+    let vmm: u8 = match rng.below(10) {
+        0 => 1 | (2 << 1) | (2 << 4), // CAN
+        1 => 1 | (2 << 1) | (*rng.pick(&[0u8, 7, 15]) << 4),
+        2 => 0x41,
+        _ => 0x15,
+    };
+    let ctid = if rng.chance(9, 10) { ch(b"TC\0\0") } else { ch(b"TX\0\0") };
+    let apid = ch(rng.pick(&APIDS));
+    let st = |id: u32, hl: usize, nr: u16, cs: u16, rng: &mut Rng| -> Proto {
+        let mut p = vec![];
+        arg_str(&mut p, big, "NWST");
+        arg_var(&mut p, big, TI_RAW, &id.to_le_bytes());
+        let mut h = rand_bytes(rng, hl as u64);
+        if hl == 12 {
+            h[8..12].copy_from_slice(&(rng.below(3) as u32).to_be_bytes());
+        }
+        arg_var(&mut p, big, TI_RAW, &h);
+        arg_var(&mut p, big, TI_RAW, &[0]);
+        arg_var(&mut p, big, TI_RAW, &nr.to_le_bytes());
+        arg_var(&mut p, big, TI_RAW, &cs.to_le_bytes());
+        proto(ecu, big, (vmm, 6, apid, ctid), p, "seg_nwst")
+    };
+    let chk = |id: u32, nr: u16, data: &[u8]| -> Proto {
+        let mut p = vec![];
+        arg_str(&mut p, big, "NWCH");
+        arg_var(&mut p, big, TI_RAW, &id.to_le_bytes());
+        arg_var(&mut p, big, TI_RAW, &nr.to_le_bytes());
+        arg_var(&mut p, big, TI_RAW, data);
+        proto(ecu, big, (vmm, 4, apid, ctid), p, "seg_nwch")
+    };
+    let en = |id: u32| -> Proto {
+        let mut p = vec![];
+        arg_str(&mut p, big, "NWEN");
+        arg_var(&mut p, big, TI_RAW, &id.to_le_bytes());
+        proto(ecu, big, (vmm, 2, apid, ctid), p, "seg_nwen")
+    };
+    // the reassembled bytes: a SOME/IP header for the service the FIBEX describes (or not) + body, cut into chunks
+    let transfer = |id: u32, rng: &mut Rng| -> Vec<Proto> {
+        let nr = rng.range(1, 5) as u16;
+        let cs = *rng.pick(&[1u16, 2, 3, 5, 8, 16]);
+        let last = if rng.chance(1, 2) { cs } else { rng.range(1, cs as u64) as u16 };
+        let total = (nr as usize - 1) * cs as usize + last as usize;
+        let mut data = vec![];
+        data.extend_from_slice(&(if rng.chance(1, 2) { 64098u16 } else { rng.next() as u16 }).to_be_bytes());
+        data.extend_from_slice(&(if rng.chance(1, 2) { 1000u16 } else { rng.next() as u16 }).to_be_bytes());
+        data.extend_from_slice(&(total.saturating_sub(8) as u32).to_be_bytes());
+        data.extend_from_slice(&(rng.next() as u32).to_be_bytes());
+        data.extend_from_slice(&[1, 1, *rng.pick(&[0u8, 1, 2, 0x80]), 0]);
+        while data.len() < total {
+            data.push(rng.below(256) as u8);
+        }
+        data.truncate(total);
+        let hl = *rng.pick(&[9usize, 10, 12, 12, 5]);
+        let mut v = vec![st(id, hl, nr, cs, rng)];
+        for (k, c) in data.chunks(cs as usize).enumerate() {
+            v.push(chk(id, k as u16, c));
+        }
+        v.push(en(id));
+        v
+    };
+    let id_a = *rng.pick(&[0u32, 1, 42, 0x0102_0304, u32::MAX]);
+    let id_b = id_a.wrapping_add(1 + rng.below(3) as u32);
+    let mut v = transfer(id_a, rng);
+    match rng.below(11) {
+        10 => {
+            // the start is missing: chunks and end for an id the plugin does not know
+            v.remove(0);
+        }
+        0 | 1 | 2 => {} // complete, in order
+        3 => {
+            // a chunk is lost
+            if v.len() > 2 {
+                let k = 1 + rng.below(v.len() as u64 - 2) as usize;
+                v.remove(k);
+            }
+        }
+        4 => {
+            // two chunks swapped
+            if v.len() > 3 {
+                let k = 1 + rng.below(v.len() as u64 - 3) as usize;
+                v.swap(k, k + 1);
+            }
+        }
+        5 => {
+            // end for an id that was never started, then the real transfer
+            v.insert(0, en(id_b));
+        }
+        6 => {
+            // two transfers interleaved
+            let w = transfer(id_b, rng);
+            v = interleave(rng, vec![v, w]);
+        }
+        7 => {
+            // the start is repeated in the middle (entry replaced), chunks continue
+            let k = 1 + rng.below(v.len() as u64 - 1) as usize;
+            let again = v[0].clone();
+            v.insert(k, again);
+        }
+        8 => {
+            // a second end, and a second complete transfer with the same id afterwards
+            v.push(en(id_a));
+            v.extend(transfer(id_a, rng));
+        }
+        _ => {
+            // a chunk with a wrong size in the middle
+            if v.len() > 3 {
+                v[1] = chk(id_a, 0, &[1, 2, 3, 4, 5, 6, 7, 8, 9, 10, 11, 12, 13, 14, 15, 16, 17]);
+            }
+        }
+    }
+    v
+}
+
+/// CAN: channel announcement (GET_LOG_INFO response for apid CAN) and frames of that ECU before / after it
+fn can_session(rng: &mut Rng, ecu: u32) -> Vec<Proto> {
+    let big = rng.chance(1, 5);
+    let frame = |rng: &mut Rng| -> Proto {
+        let mut p = vec![];
+        let fid: u32 = *rng.pick(&[1u32, 0x123, 0x7ff, 0x1234_5678]);
+        if rng.chance(1, 2) {
+            arg_u32(&mut p, big, fid)
+        } else {
+            arg_var(&mut p, big, TI_RAW, &fid.to_le_bytes())
+        }
+        let n = rng.size(8);
+        let d = rand_bytes(rng, n);
+        arg_var(&mut p, big, TI_RAW, &d);
+        proto(ecu, big, (0x25, 2, ch(b"CAN\0"), ch(b"TC\0\0")), p, "can_frame")
+    };
+    let announce = |rng: &mut Rng| -> Proto {
+        let mut p = vec![];
+        p.extend_from_slice(&if big { 3u32.to_be_bytes() } else { 3u32.to_le_bytes() });
+        p.push(7);
+        let put16 = |p: &mut Vec<u8>, v: u16| p.extend_from_slice(&if big { v.to_be_bytes() } else { v.to_le_bytes() });
+        put16(&mut p, 1);
+        p.extend_from_slice(b"CAN\0");
+        put16(&mut p, 0);
+        let desc: &[u8] = *rng.pick(&[b"IuK_CAN 431" as &[u8], b"CAN1", b""]);
+        put16(&mut p, desc.len() as u16);
+        p.extend_from_slice(desc);
+        proto(ecu, big, (0x26, 0, ch(b"CAN\0"), ch(b"TC\0\0")), p, "can_announce")
+    };
+    let mut v = vec![];
+    for _ in 0..rng.range(0, 2) {
+        v.push(frame(rng));
+    }
+    v.push(announce(rng));
+    for _ in 0..rng.range(1, 3) {
+        v.push(frame(rng));
+    }
+    if rng.chance(1, 3) {
+        v.push(announce(rng));
+        v.push(frame(rng));
+    }
+    v
+}
+
+/// Muniic: configuration message (version / model hash), messages decoded with it (lookup cache: same ids twice),
+/// a configuration with another hash, messages again
+fn muniic_session(rng: &mut Rng, ecu: u32) -> Vec<Proto> {
+    let big = rng.chance(1, 5);
+    let cfg = |hash: &str| -> Proto {
+        let mut p = vec![];
+        arg_str(&mut p, big, &format!("Version: 20.48, git: 123, model hash: {}", hash));
+        proto(ecu, big, (0x41, 1, ch(b"MUN\0"), ch(b"MDLT")), p, "muniic_cfg")
+    };
+    let mmsg = |rng: &mut Rng| -> Proto {
+        let mut p = vec![];
+        arg_str(&mut p, big, "HmiP");
+        arg_u32(&mut p, big, 5711);
+        arg_u32(&mut p, big, 83029);
+        arg_u32(&mut p, big, 7);
+        arg_u32(&mut p, big, 0);
+        arg_str(&mut p, big, "InitialData...");
+        arg_str(&mut p, big, "[Hmi]");
+        arg_u32(&mut p, big, if rng.chance(5, 6) { 1228779599 } else { 17 });
+        arg_u32(&mut p, big, if rng.chance(5, 6) { 3478824001 } else { 18 });
+        arg_str(&mut p, big, "C/LC:");
+        arg_u8(&mut p, big, 2);
+        arg_u8(&mut p, big, 0);
+        let n = rng.range(0, 2);
+        let d = rand_bytes(rng, n);
+        arg_var(&mut p, big, TI_RAW, &d);
+        proto(ecu, big, (0x41, 13, ch(b"MUN\0"), ch(b"MMSG")), p, "muniic_msg")
+    };
+    let mut v = vec![];
+    if rng.chance(1, 2) {
+        v.push(mmsg(rng)); // before any configuration: default hash
+    }
+    v.push(cfg(*rng.pick(&["2874425776", "2944352002", "5"])));
+    v.push(mmsg(rng));
+    v.push(mmsg(rng));
+    if rng.chance(1, 2) {
+        v.push(cfg(*rng.pick(&["2944352002", "6", "2874425776"])));
+        v.push(mmsg(rng));
+    }
+    v
+}
+
+/// file transfer: FLST, FLDA packages, FLFI of one serial (complete / package lost / duplicated / start missing)
+fn ft_session(rng: &mut Rng, ecu: u32) -> Vec<Proto> {
+    let big = rng.chance(1, 5);
+    let (a, c) = if rng.chance(5, 6) { (ch(b"FTA\0"), ch(b"FTC\0")) } else { (ch(b"APP1"), ch(b"CTX1")) };
+    let serial = rng.below(1000) as u32;
+    let n = rng.range(1, 4) as u32;
+    let bs = rng.range(1, 6) as u16;
+    let mut v = vec![];
+    let mut p = vec![];
+    arg_str(&mut p, big, "FLST");
+    arg_u32(&mut p, big, serial);
+    arg_str(&mut p, big, "file.bin");
+    arg_u32(&mut p, big, n * bs as u32);
+    arg_str(&mut p, big, "date");
+    arg_u32(&mut p, big, n);
+    arg_u16(&mut p, big, bs);
+    arg_str(&mut p, big, "FLST");
+    v.push(proto(ecu, big, (0x41, 8, a, c), p, "ft_flst"));
+    for k in 1..=n {
+        let mut p = vec![];
+        arg_str(&mut p, big, "FLDA");
+        arg_u32(&mut p, big, serial);
+        arg_u32(&mut p, big, k);
+        let d = rand_bytes(rng, bs as u64);
+        arg_var(&mut p, big, TI_RAW, &d);
+        arg_str(&mut p, big, "FLDA");
+        v.push(proto(ecu, big, (0x41, 5, a, c), p, "ft_flda"));
+    }
+    let mut p = vec![];
+    arg_str(&mut p, big, "FLFI");
+    arg_u32(&mut p, big, serial);
+    arg_str(&mut p, big, "FLFI");
+    v.push(proto(ecu, big, (0x41, 3, a, c), p, "ft_flfi"));
+    match rng.below(6) {
+        0 => {
+            v.remove(0); // start missing
+        }
+        1 => {
+            if v.len() > 2 {
+                v.remove(1); // first package lost
+            }
+        }
+        2 => {
+            let d = v[1].clone();
+            v.insert(1, d); // duplicate package
+        }
+        _ => {}
+    }
+    v
+}
+
+/// random merge that keeps the order inside each sequence
+fn interleave(rng: &mut Rng, mut seqs: Vec<Vec<Proto>>) -> Vec<Proto> {
+    for s in seqs.iter_mut() {
+        s.reverse();
+    }
+    let mut out = vec![];
+    loop {
+        seqs.retain(|s| !s.is_empty());
+        if seqs.is_empty() {
+            return out;
+        }
+        let k = rng.below(seqs.len() as u64) as usize;
+        out.push(seqs[k].pop().unwrap());
+    }
+}
+
+/// a stream made of 1..2 sessions aimed at the plugins of the chain + a little unrelated traffic
+fn gen_scenario_stream(rng: &mut Rng, chain: &[Plug]) -> (Vec<DltMessage>, Vec<&'static str>) {
+    let mut kinds: Vec<u8> = vec![0]; // SOME/IP segments are always a candidate
+    for p in chain {
+        match p {
+            Plug::SomeIp => kinds.extend_from_slice(&[0, 0, 0]),
+            Plug::Can => kinds.extend_from_slice(&[1, 1]),
+            Plug::Muniic => kinds.extend_from_slice(&[2, 2]),
+            Plug::FileTransfer(_, _) => kinds.extend_from_slice(&[3, 3]),
+            _ => {}
+        }
+    }
+    let mut seqs = vec![];
+    for _ in 0..rng.range(1, 2) {
+        let ecu = if rng.chance(1, 2) { ECU1 } else { ch(rng.pick(&ECUS)) };
+        seqs.push(match *rng.pick(&kinds) {
+            0 => someip_session(rng, ecu),
+            1 => can_session(rng, ecu),
+            2 => muniic_session(rng, ecu),
+            _ => ft_session(rng, ecu),
+        });
+    }
+    let mut noise = vec![];
+    for _ in 0..rng.range(0, 2) {
+        noise.push(gen_traffic(rng, 0, 0, 0));
+    }
+    seqs.push(noise);
+    let protos = interleave(rng, seqs);
+    let mut rt = 1_000_000_000u64 + rng.below(1000);
+    let mut ts = rng.below(100_000) as u32;
+    let mut ms = vec![];
+    let mut tg = vec![];
+    for (i, (mut m, t)) in protos.into_iter().enumerate() {
+        rt += 1 + rng.below(1_000_000);
+        ts = ts.wrapping_add(1 + rng.below(5000) as u32);
+        m.index = 100 + i as u32;
+        m.reception_time_us = rt;
+        m.timestamp_dms = ts;
+        m.standard_header.mcnt = (7 * i + 3) as u8;
+        m.lifecycle = 1 + (i as u32 % 3);
+        if rng.chance(1, 8) {
+            m.payload_text = Some("already decoded".into());
+        }
+        ms.push(m);
+        tg.push(t);
+    }
+    (ms, tg)
+}
+
 // ------------------------------------------------------------------------------------------------ main
 fn witness_ctrl_short() -> DltMessage {
     // DESIGN Appendix A C03-1: verbose control response, noar 1, payload = one bool argument
@@ -1690,6 +2072,24 @@ fn main() {
         record_dec(&mut sink, chain, ms, tg);
     }
 
+    {
+        // stateful paths, deterministic family: sessions of every kind through the single plugin and the full chain
+        let mut r3 = Rng::new(4713);
+        for k in 0..12u64 {
+            let single = match k % 4 {
+                0 => Plug::SomeIp,
+                1 => Plug::Can,
+                2 => Plug::Muniic,
+                _ => Plug::SomeIp,
+            };
+            let (ms, tg) = gen_scenario_stream(&mut r3, &[single.clone()]);
+            record_dec(&mut sink, vec![single], ms, tg);
+            let full = vec![Plug::NonVerbose, Plug::SomeIp, Plug::FileTransfer(k % 2 == 0, true), Plug::Can, Plug::Muniic, Plug::Rewrite];
+            let (ms, tg) = gen_scenario_stream(&mut r3, &full);
+            record_frame(&mut sink, full, ms, tg);
+        }
+    }
+
     // ---- generated
     let scale = a.count.unwrap_or(if quick { 1 } else if search { 2 } else { 15 });
     for _ in 0..(250 * scale) {
@@ -1711,6 +2111,11 @@ fn main() {
             c.retain(|p| !matches!(p, Plug::FileTransfer(_, _)));
             c
         };
+        if rng.chance(2, 5) {
+            let (ms, tg) = gen_scenario_stream(&mut rng, &chain);
+            record_dec(&mut sink, chain, ms, tg);
+            continue;
+        }
         let n = rng.range(1, 8);
         let mut ms = vec![];
         let mut tg = vec![];
@@ -1746,6 +2151,11 @@ fn main() {
     }
     for k in 0..(256 * scale) {
         let chain = gen_chain(&mut rng, k);
+        if rng.chance(2, 5) {
+            let (ms, tg) = gen_scenario_stream(&mut rng, &chain);
+            record_frame(&mut sink, chain, ms, tg);
+            continue;
+        }
         let n = rng.range(1, 9);
         let mut ms = vec![];
         let mut tg = vec![];
